@@ -1,8 +1,152 @@
+//! Monitor for the `lattices` crate: C01 (merge is ACI), C02 (changed flag), C03 (order, equality,
+//! bottom, top), C04 (each lattice is its mathematical model, representation independence),
+//! C06 (atomize). One binary, dispatch on `--prop`; all checks share the universe in `universe.rs`
+//! and the independent model in `model.rs`.
+
+mod checks;
+mod hist;
+mod lat;
+mod model;
+mod table;
+mod uf;
+mod universe;
+
+use checks::Ctx;
+use vcommon::{Args, Tier, Value};
+
+fn norm_check(s: &str) -> &str {
+    s.trim_end_matches("_self").trim_end_matches("_record")
+}
+
+fn replay(cx: &mut Ctx, prop: &str, case: &Value) {
+    let check = case["check"].as_str().unwrap_or("");
+    let fam = case["family"].as_str().unwrap_or("");
+    match check {
+        "point" => checks::point_check(cx, prop, Some(case)),
+        "c04" => {
+            let f = table::families().into_iter().find(|f| f.name == fam).unwrap_or_else(|| panic!("unknown family {fam}"));
+            hist::replay_history(cx, &f, case);
+        }
+        "c04rho" => uf::replay_rho(cx, case),
+        _ => {
+            let es = table::entries();
+            let e = es
+                .iter()
+                .find(|e| norm_check(e.check) == check && (e.family == fam || format!("{0}|{0}", e.family) == fam))
+                .unwrap_or_else(|| panic!("no table entry for check {check} family {fam}"));
+            (e.run)(cx, Some(case));
+        }
+    }
+}
+
 fn main() {
-    let args = vcommon::Args::parse();
+    let args = Args::parse();
+    if let Some(i) = args.rest.iter().position(|a| a == "--uf-child") {
+        uf::child_main(&args.rest[i + 1]);
+        return;
+    }
     if args.prop == "NONE" {
         return;
     }
-    eprintln!("not implemented yet");
-    std::process::exit(3);
+    let prop: &'static str = match args.prop.as_str() {
+        "C01" => "C01",
+        "C02" => "C02",
+        "C03" => "C03",
+        "C04" => "C04",
+        "C06" => "C06",
+        p => {
+            eprintln!("mon_lattices does not serve {p}");
+            std::process::exit(3);
+        }
+    };
+    let miri = args.tier == Tier::Miri;
+    let mut cx = Ctx::new(prop, args.clone());
+    if let Some(case) = args.replay_case() {
+        replay(&mut cx, prop, &case);
+        cx.rep.finish("replay", false);
+        return;
+    }
+
+    let mut idx = 0usize;
+    if prop == "C04" {
+        for f in table::families() {
+            idx += 1;
+            if !args.in_shard(idx) {
+                continue;
+            }
+            hist::c04_family(&mut cx, &f);
+            if f.name == "fam_union_find" {
+                hist::c04_uf_exhaustive(&mut cx, &f);
+            }
+        }
+        if !miri {
+            let cases = uf::rho_cases(args.tier == Tier::Thorough);
+            uf::run_rho(&mut cx, &cases);
+        }
+    } else {
+        for e in table::entries() {
+            if e.prop != prop {
+                continue;
+            }
+            idx += 1;
+            if !args.in_shard(idx) {
+                continue;
+            }
+            (e.run)(&mut cx, None);
+        }
+        if matches!(prop, "C01" | "C02" | "C03") {
+            checks::point_check(&mut cx, prop, None);
+        }
+    }
+
+    let fe = cx.families_exhaustive;
+    let fs = cx.families_sampled;
+    cx.rep.extra("universe_lists_fully_enumerated", vcommon::json!(fe));
+    cx.rep.extra("universe_lists_sampled", vcommon::json!(fs));
+    let c = |cx: &Ctx, n: &str| cx.rep.counter(n);
+    if !miri {
+        match prop {
+            "C01" => {
+                cx.rep.require(c(&cx, "c01_families") >= 50, "fewer than 50 lattice types driven through the ACI laws");
+                cx.rep.require(c(&cx, "c01h_pairs_of_representations") >= 30, "fewer than 30 heterogeneous (Self, Other) pairs");
+                cx.rep.require(c(&cx, "point_unequal_merge_panicked_as_documented") > 0 || cx.rep.violations() > 0, "Point unequal-merge behaviour not observed");
+                cx.rep.require(cx.rep.distinct_count() >= 50_000, "fewer than 50 000 distinct non-trivial triples");
+            }
+            "C02" => {
+                cx.rep.require(c(&cx, "c02_pairs_of_representations") >= 100, "fewer than 100 (Self, Other) pairs judged");
+                cx.rep.require(c(&cx, "c02_cross_representation_pairs") >= 60, "fewer than 60 cross-representation pairs");
+                cx.rep.require(c(&cx, "c02_flag_true") >= 10_000 && c(&cx, "c02_flag_false") >= 10_000, "fewer than 10 000 merges with each flag value");
+            }
+            "C03" => {
+                cx.rep.require(c(&cx, "c03_pairs_of_representations") >= 250, "fewer than 250 (Self, Other) comparison pairs");
+                cx.rep.require(c(&cx, "c03_cross_representation_pairs") >= 150, "fewer than 150 cross-representation comparison pairs");
+                cx.rep.require(c(&cx, "c03_incomparable_pairs") >= 5_000, "fewer than 5 000 incomparable pairs");
+                cx.rep.require(c(&cx, "c03_ordered_pairs") >= 5_000, "fewer than 5 000 strictly ordered pairs");
+                cx.rep.require(c(&cx, "c03_bottoms_seen") >= 100 && c(&cx, "c03_tops_seen") >= 20, "too few bottom / top values seen");
+                cx.rep.require(c(&cx, "c03_default_families") >= 50, "Default checked for fewer than 50 types");
+            }
+            "C04" => {
+                cx.rep.require(c(&cx, "c04_families") >= 26, "not every family ran its histories");
+                cx.rep.require(c(&cx, "c04_uf_exhaustive_histories") >= 1000, "union-find exhaustive histories missing");
+                cx.rep.require(c(&cx, "c04_rho_cases") >= 8, "rho-shaped union-find cases did not run");
+                cx.rep.require(c(&cx, "c04_lattice_from_between_self_representations") >= 500, "too few LatticeFrom conversions");
+                cx.rep.require(c(&cx, "c04_ro_same:UnionFind<VecMap>") > 0, "read-only union-find representations never queried");
+            }
+            "C06" => {
+                cx.rep.require(c(&cx, "c06_families") >= 19, "not every Atomize type was driven");
+                cx.rep.require(c(&cx, "c06_bottom_values") >= 30, "fewer than 30 bottom values atomized");
+                cx.rep.require(cx.rep.distinct_count() >= 1000, "fewer than 1000 values with >= 2 atoms");
+            }
+            _ => {}
+        }
+    }
+    let rule = match prop {
+        "C01" => "per lattice type: the bounded-exhaustive list of small raw values (element domain {0,1,2}, keys {0,1}, nesting depth <=3; sampled when larger than the tier's list size) plus seeded random larger values; idempotence on all singles, commutativity on all pairs, associativity on the full cube of the short list plus random triples of the long list, each judged by equality of the revealed model values and by the crate's ==; heterogeneous operands: order-independence and idempotence of merging other-representation values. Non-trivial = triple of pairwise model-distinct, non-bottom values",
+        "C02" => "every (Self, Other) pair of the table x all pairs of the family's value list (sampled above the tier's cap): returned flag == (model(after) != model(before)), model(after) == model(before) join model(other), flag false => other <= before. Non-trivial = neither operand bottom and the two models differ",
+        "C03" => "every (Self, Other) pair with PartialOrd/PartialEq impls x all pairs of the value list: partial_cmp, ==, <=, <, >=, >, != against the model order; naive_cmp == partial_cmp == model for mergeable pairs; reflexive/antisymmetric/transitive/dual on all triples of a short list; is_bot / is_top against the model's least / greatest element; Default is bottom. Non-trivial = pair of model-distinct non-bottom values (or a strictly increasing triple)",
+        "C04" => "per family, histories of merge (operand in any representation incl. read-only ones) / LatticeFrom between representations / round trips through read-only representations, applied in lock-step to all self-capable representations; after every step every representation's revealed contents == model state (join computed by the harness; union-find: BFS components of all unions so far, full same(a,b) matrix after every step and single queries interleaved); all union/merge-atom histories of the tier's length over 4 items; rho-shaped parent maps in watchdogged child processes (3/3). Non-trivial = history with >= 2 state-changing steps",
+        _ => "every Atomize type x the family's value list: no atom is bottom (crate is_bot and model), atoms empty <=> bottom (model and crate is_bot), merging the atoms into Default reveals the original model value. Non-trivial = value with >= 2 atoms",
+    };
+    let exhaustive = fe > 0 && !miri;
+    cx.rep.finish(rule, exhaustive);
 }
